@@ -2,10 +2,10 @@ import CifModel.Gen.Schema
 import CifModel.Model.Store
 /-
   CifModel.Model.StoreSchema — the facts about the relational schema, the SQL statements and the transaction macros that
-  Model/Store.lean and Model/PktItr.lean were written against, and the LINK theorems: they equal what tools/translate_schema.py
-  extracts from the CURRENT sources (Gen/Schema.lean, regenerated on every run).  A changed key, cascade clause, trigger,
-  trigger message, CHECK, SQL statement or transaction macro use in /repo makes `decide` fail here — a broken proof
-  obligation of C04/C05/C06.
+  Model/Store.lean and Model/PktItr.lean were written against (literals written by tools/gen_storeschema.py when the model was last
+  brought in line with the sources), and the LINK theorems: they equal what tools/translate_schema.py extracts from the CURRENT
+  sources (Gen/Schema.lean, regenerated on every run).  A changed key, cascade clause, trigger, trigger message, CHECK, SQL statement
+  or transaction macro use in /repo makes `decide` fail here — a broken proof obligation of C04/C05/C06/C17.
 -/
 namespace CifModel.Store.Assumed
 open CifModel.Gen.Schema (Table FK Trigger S)
@@ -107,6 +107,7 @@ def sql : List (S × S) := [
   ((a!"RESET_PACKET_NUM_SQL"), (a!"update loop set last_row_num = 0 where container_id = ? and loop_num = ?")),
   ((a!"ADD_LOOP_ITEM_SQL"), (a!"insert into loop_item (container_id, name, name_orig, loop_num) values (?, ?, ?, ?)")),
   ((a!"INSERT_VALUE_SQL"), (a!"insert into item_value (container_id, name, row_num, kind, quoted, val_text, val, val_digits, su_digits, scale) values (?, ?, ?, ?, ?, ?, ?, ?, ?, ?)")),
+  ((a!"FILL_PACKET_SQL"), (a!"insert or ignore into item_value (container_id, name, row_num, kind) select container_id, name, ?3, 5 from loop_item where container_id = ?1 and loop_num = ?2")),
   ((a!"UPDATE_VALUE_SQL"), (a!"insert or replace into item_value (container_id, name, row_num, kind, quoted, val_text, val, val_digits, su_digits, scale) values (?, ?, ?, ?, ?, ?, ?, ?, ?, ?)")),
   ((a!"GET_VALUE_SQL"), (a!"select kind, quoted, val, val_text, val_digits, su_digits, scale from item_value where container_id = ? and name = ?")),
   ((a!"GET_LOOP_VALUES_SQL"), (a!"select iv.row_num, name, iv.kind, iv.quoted, iv.val, iv.val_text, iv.val_digits, iv.su_digits, iv.scale from loop_item li join item_value iv using (container_id, name) where li.container_id=? and li.loop_num=? order by iv.row_num")),
